@@ -55,6 +55,24 @@ MUTANTS = [
      "old": "        lock_held = [True]\n",
      "new": "        instance.unlock()\n        lock_held = [False]\n",
      "note": "stream gives the lock up right away: other requests may interleave"},
+    # ---- C16
+    {"id": "c16-one-bptk-for-all", "property": "C16", "file": S,
+     "old": "        return self._bptk_factory()\n",
+     "new": "        if not hasattr(self, '_cached'):\n            self._cached = self._bptk_factory()\n        return self._cached\n"},
+    {"id": "c16-sweep-deletes-all", "property": "C16", "file": S,
+     "old": "                            del self._instances[key]\n", "new": "                            self._instances.clear()\n                            return\n"},
+    {"id": "c16-stop-removes-all-files", "property": "C16", "file": S,
+     "old": "            self._external_state_adapter.delete_instance(instance_uuid)\n",
+     "new": "            for k in list(self._instance_manager._instances):\n                self._external_state_adapter.delete_instance(k)\n            self._external_state_adapter.delete_instance(instance_uuid)\n"},
+    {"id": "c16-clones-share-points", "property": "C16", "file": SMSD,
+     "old": "        new_mod.points = copy.deepcopy(model.points)", "new": "        new_mod.points = model.points"},
+    {"id": "c16-session-state-aliased", "property": "C16", "file": B,
+     "old": "            \"results_log\":{},\n            \"lock\": False\n        }\n",
+     "new": "            \"results_log\":{},\n            \"lock\": False\n        }\n        bptk._shared = getattr(bptk, \"_shared\", {})\n        bptk._shared.update(self.session_state)\n        self.session_state = bptk._shared\n",
+     "note": "all instances alias one session dict"},
+    {"id": "c16-stop-deletes-first-instance", "property": "C16", "file": S,
+     "old": "        self._instance_manager._delete_instance(instance_uuid)\n",
+     "new": "        self._instance_manager._delete_instance(sorted(self._instance_manager._instances)[0] if self._instance_manager._instances else instance_uuid)\n"},
     # ---- C17
     {"id": "c17-ge-to-gt", "property": "C17", "file": S,
      "old": "if current_time >= last_call_time + timeout:", "new": "if current_time > last_call_time + timeout:"},
